@@ -33,8 +33,18 @@ A join in that situation may complete or time out.  A deadline that fired at exa
 later complementary operation is decided (timed out: skipped); the operation arriving before the clock
 reaches the deadline is decided (served).
 
-Sensitivity (quick tier, seed 1, scratch copy of /repo/tornado/queues.py):
-  to be filled in.
+Sensitivity (quick tier, seed 1, scratch copy of /repo/tornado/queues.py; all caught):
+  M1  _consume_expired is a no-op                           -> crash.InvalidStateError@concurrent.py:future_set_result_unless_cancelled, C35.qsize
+  M2  __put_internal does not increment _unfinished_tasks   -> C35.task_done_raised
+  M3  LifoQueue._get pops the oldest item                   -> C35.wrong_item
+  M4  put_nowait hands the getter the new item and also leaves it stored -> C35.qsize
+  M5  get_nowait takes its item before admitting the blocked putter's    -> C35.wrong_item (lifo/prio, maxsize>=1)
+  M6  full(): `>=` -> `>`                                   -> C35.full (and over_maxsize)
+  M7  task_done: `<= 0` -> `< 0`                            -> C35.extra_task_done_accepted
+  M8  put does not arm the timeout of a blocked putter      -> C35.timeout_not_delivered
+  M9  _consume_expired skips only putters                   -> crash.InvalidStateError..., C35.qsize
+  M10 _consume_expired skips only getters                   -> crash.InvalidStateError..., C35.qsize
+  M11 __put_internal does not clear the finished event      -> C35.join_completed_without_cause
 """
 import itertools
 
@@ -46,7 +56,7 @@ from vlib import primhist as ph
 from vlib import vtime
 
 PROPERTY = "C35"
-READY = False
+READY = True
 RULE = (
     "Hypothesis op-list histories (<=30 ops) over Queue/LifoQueue/PriorityQueue x maxsize 0..3: put(priority "
     "0..3; no/absolute/timedelta/zero/past deadline), put_nowait, get(deadline forms), get_nowait, task_done, "
